@@ -47,6 +47,13 @@ pub(crate) struct OpenTry {
     pub catch_point_registered: bool,
 }
 
+// A sequence or string that's in the process of being built by the code that's being compiled
+#[derive(Clone, Copy, Debug, PartialEq, Eq)]
+pub(crate) enum OpenBuilder {
+    Sequence,
+    String,
+}
+
 #[derive(Clone, Debug)]
 pub(crate) struct Loop {
     // The loop's result register,
@@ -57,6 +64,8 @@ pub(crate) struct Loop {
     pub jump_placeholders: Vec<usize>,
     // The number of try expressions that were open when the loop was entered
     pub open_try_expressions: usize,
+    // The number of sequences and strings that were under construction when the loop was entered
+    pub open_builders: usize,
 }
 
 #[derive(Clone, Debug, PartialEq)]
@@ -83,6 +92,8 @@ pub(crate) struct Frame {
     loop_stack: Vec<Loop>,
     // The try expressions that are currently being compiled
     try_stack: Vec<OpenTry>,
+    // The sequences and strings that are under construction at the current point in the frame
+    open_builders: Vec<OpenBuilder>,
     register_stack: Vec<u8>,
     local_registers: Vec<LocalRegister>,
     exported_ids: HashSet<ConstantIndex>,
@@ -347,7 +358,21 @@ impl Frame {
             result_register,
             jump_placeholders: Vec::new(),
             open_try_expressions: self.try_stack.len(),
+            open_builders: self.open_builders.len(),
         });
+    }
+
+    // The sequences and strings that are currently under construction, innermost last
+    pub fn open_builders(&self) -> &[OpenBuilder] {
+        &self.open_builders
+    }
+
+    pub fn push_builder(&mut self, builder: OpenBuilder) {
+        self.open_builders.push(builder);
+    }
+
+    pub fn pop_builder(&mut self) -> Option<OpenBuilder> {
+        self.open_builders.pop()
     }
 
     // The try expressions that are currently being compiled, innermost last
